@@ -68,6 +68,55 @@ def _has_quantifier(e):
     return False
 
 
+_str_memo = {}
+
+
+def _mentions_strings(e):
+    k = e.get_id()
+    if k in _str_memo:
+        return _str_memo[k]
+    stack, seen, r = [e], set(), False
+    while stack:
+        x = stack.pop()
+        if x.get_id() in seen:
+            continue
+        seen.add(x.get_id())
+        if z3.is_quantifier(x):
+            stack.append(x.body())
+            continue
+        so = x.sort()
+        if so.kind() in (z3.Z3_SEQ_SORT, z3.Z3_RE_SORT):
+            r = True
+            break
+        stack.extend(x.children())
+    _str_memo[k] = r
+    return r
+
+
+_BOOL_OPS = (z3.Z3_OP_AND, z3.Z3_OP_OR, z3.Z3_OP_NOT, z3.Z3_OP_IMPLIES, z3.Z3_OP_XOR, z3.Z3_OP_ITE, z3.Z3_OP_EQ,
+             z3.Z3_OP_IFF, z3.Z3_OP_DISTINCT)
+
+
+def _abstract_strings(e, memo):
+    """propositional abstraction: every atom that mentions a string/sequence term becomes a fresh Bool (the same
+    atom -> the same Bool).  Every model of the original is a model of the abstraction, so `unsat` carries over;
+    a spurious `sat` only makes the caller drop clauses it could have kept."""
+    k = e.get_id()
+    if k in memo:
+        return memo[k]
+    if not _mentions_strings(e):
+        r = e
+    elif z3.is_app(e) and z3.is_bool(e) and e.decl().kind() in _BOOL_OPS and \
+            all(z3.is_bool(c) for c in e.children()):
+        r = e.decl()(*[_abstract_strings(c, memo) for c in e.children()])
+    elif z3.is_bool(e):
+        r = z3.Bool(f"abs!{k}")
+    else:
+        r = e
+    memo[k] = r
+    return r
+
+
 class PathEnd(Exception):
     """this path ends here (infeasible, or cut at a loop head after the invariant was re-proved)"""
 
@@ -131,17 +180,49 @@ class Ctx:
     def _feasible(self, cond):
         if not self.check_feasibility:
             return True
+        tmo = self.branch_timeout_ms
+        if getattr(self, "abs_first", False):
+            # ask the propositional abstraction first (string atoms -> fresh Bools): its `unsat` is sound and
+            # immediate; the full query then gets a short budget (it mostly times out on string-heavy paths)
+            a = self._abs_solver()
+            a.push()
+            try:
+                a.add(_abstract_strings(cond, self._absmemo))
+                ra = guarded_check(a, 2000)
+            finally:
+                a.pop()
+            if ra == z3.unsat:
+                return False
+            tmo = getattr(self, "real_timeout_ms", 600)
+        import time as _t
+        t0 = _t.time()
         try:
             self.solver.push()
             try:
                 self.solver.add(cond)
-                r = guarded_check(self.solver, self.branch_timeout_ms)
+                self.solver.set("timeout", tmo)
+                r = guarded_check(self.solver, tmo)
             finally:
                 self.solver.pop()
         except z3.Z3Exception:
             self._rebuild_solver()
             return True          # undecided: keep the branch (sound)
+        self.feas_stats = getattr(self, "feas_stats", [0, 0.0, 0])
+        self.feas_stats[0] += 1
+        self.feas_stats[1] += _t.time() - t0
+        self.feas_stats[2] += (r == z3.unknown)
         return r != z3.unsat
+
+    def _abs_solver(self):
+        a = getattr(self, "_asolver", None)
+        if a is None:
+            a = self._asolver = z3.Solver()
+            self._absmemo = {}
+            self._abs_n = 0
+        while self._abs_n < len(self.pc):
+            a.add(_abstract_strings(self.pc[self._abs_n], self._absmemo))
+            self._abs_n += 1
+        return a
 
     # -- choices
     def choose(self, conds, label=""):
